@@ -93,16 +93,21 @@ for k in KINDS:
     MC.append(dict(name=k + "-dev", tiers=["dev"], consts=c, overrides=ov))
     c, ov = consts(k, True, "all", "StepsT", 3, 2, 1, 1, 1)
     MC.append(dict(name=k + "-len3", tiers=["thorough"], consts=c, overrides=ov, timeout=2400))
+    c, ov = consts(k, True, "all", "StepsQ", 1, 3, 1, 2, 1)
+    MC.append(dict(name=k + "-msgs", tiers=["thorough"], consts=c, overrides=ov, timeout=2400))
+    c, ov = consts(k, False, "all", "StepsD", 2, 2, 1, 2, 1)
+    MC.append(dict(name=k + "-noalias", tiers=["thorough"], consts=c, overrides=ov))
     # replay, everything outside the known scenario
     MAIN.append(cfg(k + "-dev", ["dev"], k, True, "main", "StepsD", 2, 1, 1, 1, 1, shards=6, rej_sample=3))
-    MAIN.append(cfg(k, ["quick"], k, True, "main", "StepsQ", 2, 2, 1, 2, 1, rej_sample=6))
-    MAIN.append(cfg(k + "-msgs", ["thorough"], k, True, "main", "StepsQ", 1, 3, 2, 2, 1, shards=16))
-    MAIN.append(cfg(k + "-len3", ["thorough"], k, True, "main", "StepsT", 3, 2, 1, 1, 1, shards=16))
-    MAIN.append(cfg(k + "-noalias", ["thorough"], k, False, "main", "StepsQ", 2, 2, 1, 2, 1, shards=16))
+    MAIN.append(cfg(k, ["quick"], k, True, "main", "StepsQ", 2, 2, 1, 2, 1, rej_sample=4))
+    MAIN.append(cfg(k + "-len2", ["thorough"], k, True, "main", "StepsQ", 2, 2, 1, 2, 1, shards=16))      # the quick graph, every rejected operation tried
+    MAIN.append(cfg(k + "-msgs", ["thorough"], k, True, "main", "StepsQ", 1, 3, 1, 2, 1, shards=16))      # longer message histories, one-step programs
+    MAIN.append(cfg(k + "-len3", ["thorough"], k, True, "main", "StepsT", 3, 1, 1, 1, 1, shards=16))      # three-step programs
+    MAIN.append(cfg(k + "-noalias", ["thorough"], k, False, "main", "StepsD", 2, 2, 1, 2, 1, shards=16))  # the pair without alias / bridge denomination
     # replay, the known scenario only
     KNOWN.append(cfg(k + "-known-dev", ["dev"], k, True, "known", "StepsD", 2, 1, 1, 1, 0, shards=4, rej_sample=1, explore=0))
     KNOWN.append(cfg(k + "-known", ["quick"], k, True, "known", "StepsQ", 2, 1, 1, 1, 0, shards=6, rej_sample=1, explore=0))
-    KNOWN.append(cfg(k + "-known", ["thorough"], k, True, "known", "StepsT", 3, 2, 1, 1, 0, shards=12, rej_sample=1, explore=0))
+    KNOWN.append(cfg(k + "-known3", ["thorough"], k, True, "known", "StepsT", 3, 1, 1, 1, 0, shards=12, rej_sample=1, explore=0))
 MAIN.append(cfg("module-noalias", ["quick"], "module", False, "main", "StepsD", 2, 1, 1, 1, 1, shards=8, rej_sample=4))
 
 ASSUMPTIONS = [
